@@ -163,6 +163,9 @@ func (e *Engine) RunCheck(prop string, timeoutS int, thorough bool, known []Know
 	have := map[string]bool{}
 	for _, o := range rep.Obls {
 		have[o.Name] = true
+		if i := strings.Index(o.Name, "@r"); i > 0 {
+			have[o.Name[:i]] = true
+		}
 	}
 	for _, name := range ledger[prop] {
 		// structural obligations (loop invariants, call-site preconditions) may legitimately
@@ -192,9 +195,9 @@ func cmdCheck(args []string) {
 	fs.Parse(args)
 	start := time.Now()
 	thorough := *tier == "thorough"
-	timeout := 10
+	timeout := 40
 	if thorough {
-		timeout = 60
+		timeout = 90
 	}
 	seed := 0
 	if s := os.Getenv("VERIF_SEED"); s != "" {
@@ -425,8 +428,16 @@ func cmdLedger(args []string) {
 	for _, p := range strings.Split(*props, ",") {
 		rep := e.RunCheck(p, 10, false, known, Ledger{})
 		var names []string
+		seenName := map[string]bool{}
 		for _, o := range rep.Obls {
-			names = append(names, o.Name)
+			nm := o.Name
+			if i := strings.Index(nm, "@r"); i > 0 {
+				nm = nm[:i]
+			}
+			if !seenName[nm] {
+				seenName[nm] = true
+				names = append(names, nm)
+			}
 			if o.Status != "unsat" {
 				fmt.Printf("%s: NOT DISCHARGED %s (%s)\n", p, o.Name, o.Status)
 				bad = true
